@@ -40,10 +40,16 @@ def compare(ctx, state, area, name, via_vis):
     ok, fn = call_real(obsgen.build_obs, name, area, via_vis)
     if not ok:
         return
+    pre = enc.es(state)
     ok, obs0 = call_real(fn, state, rng=np.random.default_rng(0))
     ctx.ev()
     if not ok:
         ctx.violation('egocentric', 'obs.raises', f'{name} raised {describe_exc(obs0)}', 'rot_case', payload())
+        return
+    if enc.es(state) != pre:
+        state = enc.state_from_json(payload()['state']) if False else state
+        ctx.violation('egocentric', f'{name}.mutates_state', f'{name} area {obsgen.area_json(area)}: observing modified the state, so the '
+                      f'rotated copies are no longer copies of the same world', 'rot_case', payload())
         return
     e0 = enc.es(obs0)
     ctx.hit('fn.' + name)
